@@ -35,7 +35,17 @@ def work_init(init):
 def _paths(ext, td):
     real = os.path.join(td, "real" + ext)
     open(real, "wb").close()
-    return [None, "x" + ext, "rel/dir/x" + ext, "/abs/nowhere/x" + ext, "ünï/文 書" + ext, "arch.zip!/inner/x" + ext, real, "dir.v2/x.y" + ext, "C:\\win\\x" + ext]
+    os.makedirs(os.path.join(td, "store"), exist_ok=True)
+    blob = os.path.join(td, "store", "blob_0001")
+    open(blob, "wb").close()
+    link = os.path.join(td, "linked" + ext)
+    try:
+        os.symlink(blob, link)
+    except OSError:
+        link = real
+    missing_in_existing_dir = os.path.join(td, "not-there" + ext)
+    return [None, "x" + ext, "rel/dir/x" + ext, "/abs/nowhere/x" + ext, "ünï/文 書" + ext, "arch.zip!/inner/x" + ext, real, "dir.v2/x.y" + ext, "C:\\win\\x" + ext,
+            link, missing_in_existing_dir]
 
 
 def work(case):
@@ -103,11 +113,9 @@ def work(case):
                         out["path_bad"].append(f"filename={meta.get('filename')!r} for path {path!r}")
                     if meta.get("file_extension") != p.suffix:
                         out["path_bad"].append(f"file_extension={meta.get('file_extension')!r} for path {path!r}")
-                    folders = {str(p.parent)}
-                    try:
-                        folders.add(str(p.parent.resolve()))
-                    except Exception:
-                        pass
+                    # the folder is the parent of the path *as given* (a symlink's own folder, not its target's); an existing
+                    # folder is reported resolved (documented behaviour), a non-existing one as written
+                    folders = {str(p.parent.resolve())} if p.parent.exists() else {str(p.parent)}
                     if meta.get("folder_path") not in folders:
                         out["path_bad"].append(f"folder_path={meta.get('folder_path')!r} for path {path!r}")
             # textual document properties reported unchanged (generated documents only, unmutated)
@@ -133,7 +141,7 @@ def gen_cases(run):
             props = None
             if src[0] == "gen":
                 props = docs.build(src[1], src[2], src[3])[1].meta or None
-            for pi in range(9 if src[0] == "fx" or src[3] is None else 2):
+            for pi in range(2 if (src[0] == "gen" and src[3] is not None) else 11):
                 cid += 1
                 yield {"id": cid, "kind": kind, "path_idx": pi, "recipe": {"src": src, "op": None}, "props": props}
             fams = [("byte", op) for op in ("bitflip", "byteset", "zero", "numbers", "truncate_tail", "dup")]
@@ -144,7 +152,7 @@ def gen_cases(run):
             for _ in range(run.n(8, 120)):
                 fam, op = rng.choice(fams)
                 cid += 1
-                yield {"id": cid, "kind": kind, "path_idx": rng.randrange(9),
+                yield {"id": cid, "kind": kind, "path_idx": rng.randrange(11),
                        "recipe": {"src": src, "op": op, "family": fam, "mseed": rng.randrange(1 << 30)}}
 
 
@@ -187,14 +195,14 @@ def main(run):
             seen.add(key)
             run.violation(key, f"{a['where']}.{a['accessor']} raised {a['error']} [{case['kind']} {tag} {case['recipe'].get('op')}]", rep)
         for m in ob["path_bad"]:
-            key = f"C04:{case['kind']}:file-metadata:not-derived-from-path"
+            key = "C04:file-metadata:path-argument:not-derived-from-path"
             seen.add(key)
             run.violation(key, m, rep)
         for m in ob["prop_bad"]:
             key = f"C04:{case['recipe']['src'][1]}:{feat or 'clean'}:document-property-changed"
             seen.add(key)
             run.violation(key, f"{case['recipe']['src'][1]}: {m}", rep)
-        run.case(f"{case['kind']}:{tag}:{case['path_idx'] % 9}:{','.join(sorted(set(ob.get('classes', []))))}:{','.join(sorted(seen))}", nontrivial=ob["n_results"] > 0,
+        run.case(f"{case['kind']}:{tag}:{case['path_idx'] % 11}:{','.join(sorted(set(ob.get('classes', []))))}:{','.join(sorted(seen))}", nontrivial=ob["n_results"] > 0,
                  sample={"kind": case["kind"], "src": case["recipe"]["src"], "op": case["recipe"].get("op"), "path": ob.get("path"), "results": ob["n_results"], "classes": ob.get("classes", [])[:3], "broken": sorted(seen)} if case["id"] % 211 == 0 else None)
     content_classes = {c for c in classes if c.endswith("Content")}
     run.count("contracts_installed", n_wrapped)
